@@ -275,6 +275,11 @@ def ms_init(self, g):
     g.known = True
     g.cs = []
     g.cov = []
+    # C05: forward steps taken so far, and the potential of the segments left of each stack entry:
+    # P[i] = sum over i' < i of WADV(cs[i'+1] - cs[i'], S - i'), the steps the n_advance recurrence
+    # still owes for the segment between two consecutive checkpoints
+    g.P = []
+    g.taken = 0
     # the constructor arguments (proved by __init__: ram_within_declared / disk_within_declared)
     g.decl_ram = nondet_int()
     g.decl_disk = nondet_int()
@@ -291,6 +296,12 @@ def stack_write(self, g, n0, n1, write_ics, write_adj_deps, storage):
     assert storage == self._storage[k], "C01,C14:stack_position_keeps_one_storage"
     assert self.uses_storage_type(storage), "C11:uses_storage_type_true_for_every_storage_touched"
     assert forall(0, k, lambda i: g.cs[i] != n0), "C01:no_overwrite"
+    if hasattr(g, "P"):
+        if k >= 1:
+            g.P.append(g.P[k - 1] + WADV(n0 - g.cs[k - 1],
+                                         self._snapshots_in_ram + self._snapshots_on_disk - k + 1, self._trajectory))
+        else:
+            g.P.append(0)
     g.cs.append(n0)
     g.cov.append(n1)
     g.wlo = 0
@@ -314,6 +325,7 @@ def ms_forward(self, g, n0, n1, write_ics, write_adj_deps, storage):
     forward_common(self, g, n0, n1, write_ics, write_adj_deps, storage)
     assert storage != StorageType.NONE, "C18:forward_storage_used"
     g.fwd = n1
+    g.taken = g.taken + (n1 - n0)
     if storage == StorageType.WORK:
         work_forward(self, g, n0, n1, write_ics, write_adj_deps)
     else:
@@ -360,6 +372,7 @@ def ms_move(self, g, n, from_storage, to_storage):
     stack_load(self, g, n, from_storage, to_storage)
     g.cs.pop()
     g.cov.pop()
+    g.P.pop()
     counters(self, g)
     assert not self.is_exhausted, "C09:is_exhausted_false_while_actions_remain"
 
@@ -372,6 +385,10 @@ def ms_end_reverse(self, g):
     # one adjoint calculation: this is the final action
     assert len(g.cs) == 0, "C04:storage_empty_at_final_EndReverse"
     assert self._r == g.N, "C08:r_reset_at_EndReverse_iff_more_passes"
+    # C05: the stream took exactly the number of forward steps of the recurrence that the real
+    # n_advance induces (that this number is the Griewank-Walther optimum is the bounded T_adv check)
+    assert g.taken == WADV(g.N, self._snapshots_in_ram + self._snapshots_on_disk, self._trajectory), \
+        "C05:stream_steps_are_the_n_advance_recurrence"
     g.done = True
     assert self.is_exhausted, "C09:is_exhausted_true_once_final_action_emitted"
 
@@ -392,6 +409,13 @@ def tl_init(self, g):
     g.pend = 0
     g.cs = []
     g.cov = []
+    # C13, per period block: start and length of the block being recomputed, forward steps taken in
+    # it, and the potential of the segments left of each entry of the block's checkpoint stack
+    # (entry 0 is the block's periodic disk checkpoint, entries 1.. are g.cs)
+    g.bs = 0
+    g.bl = 0
+    g.tb = 0
+    g.P = []
     init_common(self, g)
 
 
@@ -412,10 +436,16 @@ def tl_forward(self, g, n0, n1, write_ics, write_adj_deps, storage):
         assert g.pend - self._period < g.fwd and g.fwd <= g.pend, "C03:one_disk_checkpoint_per_started_period"
     else:
         g.fwd = n1
+        g.tb = g.tb + (n1 - n0)
         if storage == StorageType.WORK:
             work_forward(self, g, n0, n1, write_ics, write_adj_deps)
         else:
             k = len(g.cs)
+            kp = len(g.P)
+            if k >= 1:
+                g.P.append(g.P[kp - 1] + WADV(n0 - g.cs[k - 1], self._binomial_snapshots + 1 - kp + 1, self._trajectory))
+            else:
+                g.P.append(g.P[kp - 1] + WADV(n0 - g.bs, self._binomial_snapshots + 1 - kp + 1, self._trajectory))
             assert storage == self._binomial_storage, "C13:extra_checkpoints_only_in_binomial_storage"
             assert self.uses_storage_type(storage), "C11:uses_storage_type_true_for_every_storage_touched"
             assert write_ics and not write_adj_deps, "C03:restart_checkpoints_only"
@@ -440,6 +470,10 @@ def tl_reverse(self, g, n1, n0, clear_adj_deps):
     reverse_common(self, g, n1, n0, clear_adj_deps)
     assert n1 == n0 + 1, "C12:one_step_of_dependencies"
     assert g.wlo >= g.whi, "C12:work_holds_no_dependencies_after_reverse"
+    if g.N - g.adj == g.bs:
+        # the block [bs, bs + bl) has just been reversed completely
+        assert g.tb == WADV(g.bl, self._binomial_snapshots + 1, self._trajectory), \
+            "C13:block_recomputed_with_the_n_advance_recurrence"
     counters(self, g)
     assert not self.is_exhausted, "C09:is_exhausted_false_while_actions_remain"
 
@@ -456,8 +490,18 @@ def tl_load(self, g, n, from_storage, to_storage, is_move):
         if is_move:
             g.cs.pop()
             g.cov.pop()
+            g.P.pop()
     else:
         # a periodic disk checkpoint
+        if g.N - g.adj == min(n + self._period, g.N):
+            # first action of a block: the adjoint stands at the block's end
+            g.bs = n
+            g.bl = g.N - g.adj - n
+            g.tb = 0
+            g.P = []
+            g.P.append(0)
+        if n == g.N - g.adj - 1:
+            g.P.pop()        # last step of the block: the periodic checkpoint leaves the stack
         assert from_storage == StorageType.DISK and n % self._period == 0 and 0 <= n and n < g.pend, \
             "C01:checkpoint_present"
         assert n + self._period >= g.N - g.adj, "C01:restart_checkpoint_covers_steps_to_recompute"
